@@ -5,6 +5,7 @@ package main
 // Every OTHER controller must still get its /accessories — a peer that does not read may only block itself.
 
 import (
+	"bytes"
 	"fmt"
 	"net"
 	"time"
@@ -135,6 +136,82 @@ func c13HugeBody(c *Ctx) {
 		c.Count(id+path, true, "stream:huge-body")
 		if !acc.Alive() {
 			c.Violate("remote input ends the accessory process", id, in, "an error response; the accessory keeps serving", "process exited (answer read before: "+trunc(string(buf[:n]), 60)+")")
+			return
+		}
+		n2, err := acc.Dial()
+		if err != nil {
+			c.Violate("accessory does not accept connections any more", id, in, "connect", err.Error())
+			return
+		}
+		if vr := refPairVerify(r, n2.Post(), ident, sr.AccLTPK); vr.Shared == nil {
+			c.Violate("accessory cannot complete pair-verify after malformed input", id, in, "verified", vr.ErrAt)
+		}
+		n2.Close()
+	}
+}
+
+// c13HugeJSONBody (F68): the same for the endpoints a VERIFIED controller reaches — `PUT /characteristics` read its body with
+// ioutil.ReadAll, copied it into a string for a debug line and decoded it; a body of some hundred megabytes (blanks in front
+// of a small JSON document) ends a process with a limited address space. The accessory runs as a child with RLIMIT_AS.
+func c13HugeJSONBody(c *Ctx) {
+	id := "huge-json-body#0"
+	if c.Skip(id) {
+		return
+	}
+	r := c.CaseRng("huge-json-body", 0)
+	acc, err := startE2EChild(c.ScratchDir(), fmt.Sprintf("HC_VERIF_AS=%d", 3<<29))
+	if err != nil {
+		c.Violate("transport does not start", id, nil, "started", err.Error())
+		return
+	}
+	defer acc.Stop()
+	ident := newRefIdentity(r, "ctrl-1")
+	first, _ := acc.Dial()
+	sr := refPairSetup(r, first.Post(), "001-02-003", ident)
+	first.Close()
+	if sr.ErrAt != "" {
+		c.Violate("reference controller cannot pair", id, nil, "paired", sr.ErrAt)
+		return
+	}
+	for _, req := range []string{"PUT /characteristics"} { // (/resource exists only on an accessory with a camera; its reader is in the regenerated table)
+		const total = 448 << 20
+		in := map[string]interface{}{"request": req + " on a verified connection", "body": fmt.Sprintf("%d bytes: blanks, then a small JSON document", total),
+			"address_space_of_the_accessory_process": "1.5 GiB (RLIMIT_AS)"}
+		cl, err := acc.Dial()
+		if err != nil {
+			c.Violate("accessory does not accept connections any more", id, in, "connect", err.Error())
+			return
+		}
+		vr := refPairVerify(r, cl.Post(), ident, sr.AccLTPK)
+		if vr.Shared == nil {
+			c.Violate("accessory cannot complete pair-verify", id, in, "verified", vr.ErrAt)
+			return
+		}
+		cl.Upgrade(vr.Shared)
+		cl.timeout = 20 * time.Second
+		tail := []byte(`{"characteristics":[]}`)
+		cl.send([]byte(fmt.Sprintf("%s HTTP/1.1\r\nHost: acc.local\r\nContent-Type: application/hap+json\r\nContent-Length: %d\r\n\r\n", req, total)))
+		chunk := bytes.Repeat([]byte(" "), 1<<20)
+		for sent := 0; sent < total-len(tail); sent += len(chunk) {
+			n := len(chunk)
+			if rest := total - len(tail) - sent; rest < n {
+				n = rest
+			}
+			if err := cl.send(chunk[:n]); err != nil {
+				break // refused on the way: fine
+			}
+		}
+		cl.send(tail)
+		m, _ := cl.next(10 * time.Second)
+		cl.Close()
+		time.Sleep(100 * time.Millisecond)
+		c.Count(id+req, true, "stream:huge-json-body")
+		answer := "none"
+		if m != nil {
+			answer = fmt.Sprint(m.Status)
+		}
+		if !acc.Alive() {
+			c.Violate("remote input ends the accessory process", id, in, "an error response; the accessory keeps serving", "process exited (answer read before: "+answer+")")
 			return
 		}
 		n2, err := acc.Dial()
